@@ -96,7 +96,7 @@ fn check_text(case: &Case, obs: &mut Obs) -> Verdict {
     let lines = textwrap::wrap(text, o.build());
     n += 1;
     mark("fill");
-    let filled = textwrap::fill(text, o.build());
+    let filled = o.fill(text);
     n += 1;
     mark("fill_inplace");
     let mut s = text.to_string();
@@ -107,8 +107,8 @@ fn check_text(case: &Case, obs: &mut Obs) -> Verdict {
     let _ = textwrap::unfill(&filled);
     n += 2;
     mark("refill");
-    let _ = textwrap::refill(text, o.build());
-    let _ = textwrap::refill(&filled, o.build());
+    let _ = o.refill(text);
+    let _ = o.refill(&filled);
     n += 2;
     mark("indent");
     let ind = textwrap::indent(text, case.t(4));
@@ -124,7 +124,7 @@ fn check_text(case: &Case, obs: &mut Obs) -> Verdict {
         mark("wrap_columns");
         let mut oc = o.clone();
         oc.width = total;
-        let _ = textwrap::wrap_columns(text, cols, oc.build(), case.t(1), case.t(2), case.t(3));
+        let _ = oc.wrap_columns(text, cols, case.t(1), case.t(2), case.t(3));
         n += 1;
     }
     // building blocks, per paragraph
